@@ -3,6 +3,8 @@ use crate::util::{Opts, Run};
 #[cfg(feature = "hooks")]
 pub mod dec;
 #[cfg(feature = "hooks")]
+pub mod dict;
+#[cfg(feature = "hooks")]
 pub mod hostile;
 #[cfg(feature = "hooks")]
 pub mod matcher;
@@ -21,6 +23,8 @@ pub fn dispatch(engine: &str, opts: &Opts) -> Option<Run> {
         "spec" => Some(spec::run(opts)),
         #[cfg(feature = "hooks")]
         "dec" => Some(dec::run(opts)),
+        #[cfg(feature = "hooks")]
+        "dict" => Some(dict::run(opts)),
         #[cfg(feature = "hooks")]
         "matcher" => Some(matcher::run(opts)),
         #[cfg(feature = "hooks")]
